@@ -68,7 +68,9 @@ class ShardStats(object):
 
 def evaluate_guarded(sc, case):
     core.CASE_IN_THREAD = bool(core.digest(case)[0] & 1)
-    with watchdog(sc.timeout):
+    # the watchdog only has to end genuine hangs that bypass the look-up budget; it is generous (at least 5 minutes,
+    # three times the sub-check's nominal value) so that a loaded machine never turns a slow case into exit 2
+    with watchdog(max(300.0, 3.0 * sc.timeout)):
         return sc.evaluate(case)
 
 
